@@ -95,6 +95,10 @@ def run_c18(ex, g, tier):
     codec = Codec(R)
     texts = json_texts(g, tier)
     texts = [(a, b) for a, b in texts if "\x00" not in a and "\x00" not in b]
+    # large documents (beyond 1 MiB) can only arrive on standard input
+    big = "[" + ",".join(str(i) for i in range(300000)) + "]"
+    bigs = json.dumps({"k": "x" * 1200000, "n": 5})
+    texts += [("{\"var\":-1}", big), ("{\"var\":\"n\"}", bigs), ("{\"var\":\"1.0\"}", "[\"" + "y" * 2200000 + "\"]")]
     pr = codec.parse_many([t[0] for t in texts]); pd = codec.parse_many([t[1] for t in texts])
     idx = [i for i in range(len(texts)) if pr[i].startswith("ok ") and pd[i].startswith("ok ")]
     ev = codec.model_eval([(pr[i][3:], pd[i][3:]) for i in idx])
@@ -105,6 +109,7 @@ def run_c18(ex, g, tier):
     jobs = []
     for i, (rt, dt) in enumerate(texts):
         modes = ["arg", "stdin", "dash"] if dt != "-" else ["stdin", "dash"]
+        if len(dt) > 100000: modes = ["stdin", "dash"]
         if dt == "": modes = ["stdin", "dash", "arg"]
         for m in modes:
             jobs.append((i, m))
